@@ -266,6 +266,10 @@ def r19_binary_leading(ctx):
         'program_change first': ([0xc0, 0x05, 0xf0, 0xf7], [()]),
         'two polytouch messages whose data bytes spell F0 / F7 in ASCII, no sysex': ([0xa0, 0x46, 0x30, 0xa0, 0x46, 0x37], []),
         'active_sensing only': ([0xfe], []),
+        'note_off on channel 0 first (first byte 0x80)': ([0x80, 0x3c, 0x00, 0xf0, x, 0xf7], [(x,)]),
+        'pitchwheel on channel 15 first (first byte 0xEF)': ([0xef, 0x00, 0x40, 0xf0, 0xf7], [()]),
+        'quarter_frame first (first byte 0xF1)': ([0xf1, 0x05, 0xf0, x, y, 0xf7], [(x, y)]),
+        'reset first (first byte 0xFF)': ([0xff, 0xf0, x, 0xf7], [(x,)]),
     }
     # a real-time byte in the middle of a sysex message (MIDI allows it anywhere) is dropped like any other message: the
     # sysex around it comes back whole
@@ -294,4 +298,11 @@ def r19_queue(ctx):
     parsershape.check_parser_init(ctx, 'R19.4')
 
 
-RULES = [('R19-roundtrip', r19_roundtrip), ('R19-text', r19_text_layouts), ('R19-binary', r19_binary_leading), ('R19.4', r19_queue)]
+def r19_specs(ctx):
+    """Any payload length: a sysex ends at its F7 and nowhere else - the message table gives it no fixed length (table shared
+    with C01 R01.0; the tokenizer reads the length from it)."""
+    from . import c01
+    ctx.borrow(c01.r01_0, 'R19.5')
+
+
+RULES = [('R19.5', r19_specs), ('R19-roundtrip', r19_roundtrip), ('R19-text', r19_text_layouts), ('R19-binary', r19_binary_leading), ('R19.4', r19_queue)]
